@@ -47,6 +47,9 @@ pub enum Ev {
     /// the peer sends a complete (settled) delivery on a receiving link; the application does not read it
     /// (it waits in the link's queue, ahead of whatever the peer says next)
     PFeed(usize),
+    /// the application waits (briefly) for the peer's detach on a sending link: `Sender::on_detach`, which takes
+    /// note of a detach that has arrived and answers nothing
+    LWatch(usize),
 }
 
 impl Ev {
@@ -65,6 +68,7 @@ impl Ev {
             Ev::PWindow(s) => format!("pwindow {}", s),
             Ev::PBogus(s) => format!("pbogus {}", s),
             Ev::PFeed(l) => format!("pfeed {}", l),
+            Ev::LWatch(l) => format!("lwatch {}", l),
         }
     }
     fn parse(s: &str) -> Option<Ev> {
@@ -84,6 +88,7 @@ impl Ev {
             &"pwindow" => Ev::PWindow(n(1)?),
             &"pbogus" => Ev::PBogus(n(1)?),
             &"pfeed" => Ev::PFeed(n(1)?),
+            &"lwatch" => Ev::LWatch(n(1)?),
             _ => return None,
         })
     }
@@ -447,6 +452,11 @@ pub fn run(case: &Case) -> Observed {
                 Ev::LDrop(l) => {
                     if let Some(x) = links.get_mut(*l) {
                         x.take();
+                    }
+                }
+                Ev::LWatch(l) => {
+                    if let Some(Some(Link::S(s))) = links.get_mut(*l) {
+                        let _ = tokio::time::timeout(Duration::from_millis(10), s.on_detach()).await;
                     }
                 }
                 Ev::LTouch(l) => {
@@ -829,7 +839,8 @@ pub fn check(case: &Case, obs: &Observed) -> Option<(String, String)> {
                 }
                 let s = case.links[*l].0;
                 let session_untouched = !(0..*ev_i).any(|j| matches!(&case.events[j], Ev::SEnd(x, _) | Ev::SDrop(x) | Ev::PEnd(x, _) | Ev::PBogus(x) if *x == s));
-                let touched_between = (0..*ev_i).any(|j| matches!(&case.events[j], Ev::LTouch(x) if x == l));
+                // a send / recv / on_detach in between has taken the peer's detach and been told its error
+                let touched_between = (0..*ev_i).any(|j| matches!(&case.events[j], Ev::LTouch(x) | Ev::LWatch(x) if x == l));
                 if let Some((_, true)) = peer {
                     if session_untouched && !touched_between && !(res.contains("WithError")) {
                         return Some(("peer-detach-error-not-reported".into(), format!("{}: the peer had detached the link with an error; the call returned {}", what, res)));
@@ -879,6 +890,12 @@ pub fn gen_case(rng: &mut Rng) -> Case {
             13 => Ev::PWindow(s),
             14 => Ev::PBogus(s),
             15 if nl > 0 => Ev::PFeed(l),
+            16 if nl > 0 => {
+                // the application learns of the peer's detach and then lets go of the link, one way or another
+                events.push(Ev::PDetach(l, rng.chance(1, 2), rng.chance(1, 2)));
+                events.push(Ev::LWatch(l));
+                rng.pick(&[Ev::LDrop(l), Ev::LDrop(l), Ev::LClose(l), Ev::LDetach(l)]).clone()
+            }
             _ => Ev::SEnd(s, false),
         };
         events.push(ev);
